@@ -1,5 +1,5 @@
 """property id -> check function(prop, tier) -> exit code, plus the metadata bin/mkmanifest writes into MANIFEST.json"""
-import frame, keytree
+import frame, keytree, calltracer, codec
 
 FRAME_NOTE = ("Trusted: TLC 1.8; go-ethereum v1.12.0's StateDB as world state; the scenario compiler (harness/scn) that turns model "
               "instructions into byte code; join-point failures are injected at provider level (GetTxBondAspects error) except where real WASM "
@@ -50,6 +50,26 @@ META = {
                       "registration record; every history of <= 3 (thorough: 4, sampled 10) API operations over 1-2 accounts, 2 slots, offsets {0,1,32}, "
                       "2 type ids, 2 names, 2 values is replayed on the real tracer and every query is compared after the last operation of every prefix."),
                 note="Trusted: TLC; histories are restricted to well-formed registrations (no two names for one (slot, offset, type), no two layouts for one name). Exhaustive only within the stated constants."),
+    "C19": dict(fn=calltracer.check, engine="calltracer", design_ref="3.4, 6 C19", replay=".build/verifh calltracer -one {path}",
+                technique="TLC exhaustive model checking of CallTracer.tla + replay of every TLC-generated callback stream on the real callTracer and flatCallTracer",
+                text=("NoCrash/FiledUnderIssuer/OwnResult/FilterExact/FlatDesign are model-checked on the implementation-shaped bookkeeping (callstack, join-point "
+                      "marker, JoinPoints list) against the ghost 'issued by' relation; every well-nested stream in the bound is fed to both real tracers in 7 "
+                      "configurations and the emitted JSON must equal the expected tree / flat list, with unique prefix-closed trace addresses and exact sub-trace counts."),
+                note="Trusted: TLC; the stream generator (frames with pre-JP Aspect runs, calls, post-JP Aspect runs; calls inside Aspect runs). Exhaustive only within the stated constants; three deviation switches (the three defects fixed in 0a96c32) must each yield a TLC counterexample."),
+    "C09": dict(fn=codec.check, engine="codec", design_ref="3.5, 6 C09", replay=".build/verifh codec -one {path}",
+                technique="TLC enumeration of JournalCodec.tla vectors (decoder model-checked against the Solidity layout) + execution of every vector on the real VVJNAL/VRJNAL",
+                text=("The packed-field and bytes/string decoders are written in TLA+ (RoundTrip, BadEncodingsRefused, FieldWidth model-checked); TLC enumerates every "
+                      "(offset, width) in 0..34 plus 2^31..2^256-1 on 4 word patterns and every string length 0..100 x content pattern x slot kind x invalid "
+                      "encoding; each is run on the real opcode in a real frame and the bytes read back through StateChanges().Slot must equal the model's, "
+                      "invalid operands must fail and record nothing."),
+                note="Trusted: TLC; the harness lays out storage as the Solidity compiler does (header word, data area at keccak256(pad32(slot))). Complete within the stated domain; 256-bit operands only at class boundaries."),
+    "C12": dict(fn=codec.check, engine="codec", design_ref="3.5, 6 C12", replay=".build/verifh codec -one {path}",
+                technique="TLC enumeration of JournalCodec.tla vectors + paired execution (journal opcode vs operand pops) on the real interpreter",
+                text=("For each of the 8 journal opcodes x fork x static/non-static the same program is run with the instruction and with its operands popped: "
+                      "stack sentinels, memory size and content, storage reads, storage writes, logs and return data must coincide and the gas difference must "
+                      "be one constant non-zero fee for all opcodes and forks (choose-once, not the number 800); memory-argument and operand vectors that are "
+                      "malformed must halt the frame with all gas consumed, well-formed ones must leave memory size unchanged."),
+                note="Trusted: TLC; POP costs 2 gas (used to derive the fee). Reads reaching beyond existing memory may fail or read zeros; the property fixes neither."),
 }
 
 CHECKS = {p: m["fn"] for p, m in META.items()}
